@@ -252,7 +252,9 @@ func (f *flusher) flushMetadatasAndUnmarkDirty(key string, b *blob) error {
 		f.mu.Lock()
 		b.mu.Lock()
 		if len(b.dirtyMD) == 0 {
-			delete(f.blobs, key)
+			if f.blobs[key] == b {
+				delete(f.blobs, key)
+			}
 			b.mu.Unlock()
 			f.mu.Unlock()
 			return nil
@@ -308,8 +310,8 @@ func (f *flusher) flushData(b *blob) error {
 	}
 	defer closers.Close(diskF)
 	f.mu.Lock()
-	_, ok := f.blobs[b.key]
-	if !ok {
+	cur, ok := f.blobs[b.key]
+	if !ok || cur != b {
 		// abort was called before we created the file, we need to cleanup.
 		err := f.disk.Delete(key)
 		if err != nil && !errors.Is(err, os.ErrNotExist) {
